@@ -251,6 +251,15 @@ func (w *World) registerHTTPEffects() {
 	I["@verifSetQuery"] = func(e *Exec, fn *ssa.Function, a []Value) Value {
 		p := a[0].(*Pointer)
 		e.hidden[fmt.Sprintf("query:%d", p.obj.id)] = a[1]
+		// RawQuery is the (opaque) encoding of the values: empty exactly when there are none
+		if m, ok := a[1].(*MapVal); ok {
+			raw := mkStr("")
+			if len(m.keys) > 0 {
+				raw = e.fresh("rawquery", SStr)
+				e.assume(mkNot(mkEq(mkLen(raw), mkInt(0))))
+			}
+			e.store(e.structField(p, "RawQuery"), raw)
+		}
 		return nil
 	}
 	// verifSetPostForm(req, values): the request carries this urlencoded body
